@@ -17,6 +17,11 @@
 (*   MoveDecorative        MoveDecorative() (decisions read Tokens only, which the    *)
 (*                         call does not change: one step)                            *)
 (*   LoopExit              the `while num_moved > 0` test of EquationReduction        *)
+(*   Solve(ss)             EquationSolver.SolveEquation() on the lists, under the     *)
+(*                         solver option that changes what a solve does:              *)
+(*                         ss = ParameterSolveInitialSteadyState (the k = 0 values    *)
+(*                         are replaced by the state the system settles in with its   *)
+(*                         exogenous variables frozen - CalculateInitialSteadyState)  *)
 (*                                                                                    *)
 (* Every action is written through a pure operator <Name>Op(st) over the state record *)
 (* St; Reduction_Trace folds the same operators over what the real parser did.        *)
@@ -60,6 +65,9 @@ CONSTANTS
     ConstVal,       \* the integer constant used by kind "const"
     MinVars,        \* EndParse is allowed once this many variables are declared
     MaxK,           \* periods 0..MaxK are compared
+    SteadyT,        \* ParameterInitialSteadyStateMaxTime used with the steady-state option; at least the
+                    \* number of variables + 2, so that every chain of lags has settled by T - 1
+    SolveOK(_, _),  \* SolveOK(ss, st): slice of the instance - is Solve(ss) offered in state st
     AsFound_SubstitutesVarWithIC
                     \* TRUE  = the pinned code: FindExactMatches substitutes away a variable that
                     \*         carries an initial condition like any other alias
@@ -151,24 +159,55 @@ Sol0(sys) ==
         r4 == Close(sys.deco, r3.val, r3.known, Len(sys.deco))       \* pass 4
     IN r4.val
 
-(* k >= 1: _SolveStep *)
-SolNext(sys, prev, k) ==
+(* _SolveStep: one period, with k = kval and the exogenous variables at index ei of their paths *)
+SolStep(sys, prev, kval, ei) ==
     LET vars == SysVars(sys)
         exos == SeqVars(sys.exo)
         lags == SeqVars(sys.lagged)
         base == [x \in vars \cup {K} |->
-                   IF x = K THEN k
-                   ELSE IF x \in exos THEN sys.exo[ExoOf(sys, x)].p[k + 1]
+                   IF x = K THEN kval
+                   ELSE IF x \in exos THEN sys.exo[ExoOf(sys, x)].p[ei]
                    ELSE IF x \in lags THEN prev[sys.lagged[LagOf(sys, x)].src]
                    ELSE Poison]
         rE == Close(sys.endo, base, exos \cup lags \cup {K}, Len(sys.endo))
         rD == Close(sys.deco, rE.val, rE.known, Len(sys.deco))
     IN rD.val
 
-RECURSIVE SolUpTo(_, _)
-SolUpTo(sys, k) ==          \* sequence of valuations, index k+1 = period k
-    IF k = 0 THEN << Sol0(sys) >>
-    ELSE LET p == SolUpTo(sys, k - 1) IN Append(p, SolNext(sys, p[Len(p)], k))
+(* k >= 1 of the ordinary solve *)
+SolNext(sys, prev, k) == SolStep(sys, prev, k, k + 1)
+
+RECURSIVE SolFrom(_, _, _)
+SolFrom(sys, s0, k) ==      \* sequence of valuations, index k+1 = period k, period 0 given
+    IF k = 0 THEN << s0 >>
+    ELSE LET p == SolFrom(sys, s0, k - 1) IN Append(p, SolNext(sys, p[Len(p)], k))
+
+SolUpTo(sys, k) == SolFrom(sys, Sol0(sys), k)
+
+(* CalculateInitialSteadyState: a copy of the solver, exogenous variables frozen at their k = 0   *)
+(* value, time axis -T..0, is solved for T periods starting from the time-zero values; every      *)
+(* variable but k and t must have the same value in the last two periods (else the call raises    *)
+(* NoEquilibriumError) and that value is installed as its k = 0 value.  For the integer systems   *)
+(* of this module "same within 1e-4, relatively" is "same".                                       *)
+RECURSIVE SteadyRun(_, _, _, _)
+SteadyRun(sys, s, step, T) ==   \* s = period step-1 of the copy; result << period T-1, period T >>
+    LET nxt == SolStep(sys, s, step - T, 1)
+    IN IF step >= T THEN << s, nxt >> ELSE SteadyRun(sys, nxt, step + 1, T)
+
+SteadyWith(sys, T) ==
+    LET s0 == Sol0(sys)
+        pr == SteadyRun(sys, s0, 1, T)
+        tested == SysVars(sys) \ {TimeVar}
+    IN [ok |-> \A x \in tested : pr[1][x] = pr[2][x],
+        s0 |-> [x \in DOMAIN s0 |-> IF x \in tested THEN pr[2][x] ELSE s0[x]],
+        plain |-> s0]
+
+Steady(sys) == SteadyWith(sys, SteadyT)
+
+(* the series a solve returns under option ss (with T periods of settling); << >> = the solve raises *)
+SolOptWith(sys, ss, k, T) ==
+    IF ~ss THEN SolUpTo(sys, k)
+    ELSE LET st == SteadyWith(sys, T) IN IF st.ok THEN SolFrom(sys, st.s0, k) ELSE << >>
+SolOpt(sys, ss, k) == SolOptWith(sys, ss, k, SteadyT)
 
 (* Well-posed = closed (every name is defined) and acyclic within the period (which excludes  *)
 (* in particular the alias cycles  a = b; b = a  the parser's documentation forbids and the   *)
@@ -191,7 +230,8 @@ WellPosed(sys, alldefs) ==
                    \A k \in 0..Horizon : so[k + 1][alldefs[x].v] # 0
 
 ----------------------------------------------------------------------------
-VARIABLES phase,    \* "parse" | "find" | "move" | "loop" | "done" | "error"
+VARIABLES phase,    \* "parse" | "find" | "move" | "loop" | "done" | "solved" | "error"
+          solve,    \* option of the Solve action taken: "none" | "plain" | "steady"
           endo,     \* self.Endogenous   (stale during FindExactMatches)
           deco,     \* self.Decoration
           lagged,   \* self.Lagged       (never rewritten by the reduction)
@@ -203,20 +243,20 @@ VARIABLES phase,    \* "parse" | "find" | "move" | "loop" | "done" | "error"
           moved,    \* result of the last MoveDecorative
           orig      \* the system as ParseString left it (history, for the invariants)
 
-vars == << phase, endo, deco, lagged, exo, all, toks, ics, pos, moved, orig >>
+vars == << phase, solve, endo, deco, lagged, exo, all, toks, ics, pos, moved, orig >>
 
 NoSys == [endo |-> << >>, deco |-> << >>, lagged |-> << >>, exo |-> << >>, ics |-> EmptyFn]
 
-St == [phase |-> phase, endo |-> endo, deco |-> deco, lagged |-> lagged, exo |-> exo, all |-> all,
+St == [phase |-> phase, solve |-> solve, endo |-> endo, deco |-> deco, lagged |-> lagged, exo |-> exo, all |-> all,
        toks |-> toks, ics |-> ics, pos |-> pos, moved |-> moved, orig |-> orig]
 
-Set(r) == /\ phase' = r.phase /\ endo' = r.endo /\ deco' = r.deco /\ lagged' = r.lagged
+Set(r) == /\ phase' = r.phase /\ solve' = r.solve /\ endo' = r.endo /\ deco' = r.deco /\ lagged' = r.lagged
           /\ exo' = r.exo /\ all' = r.all /\ toks' = r.toks /\ ics' = r.ics /\ pos' = r.pos
           /\ moved' = r.moved /\ orig' = r.orig
 
 SysOf(st) == [endo |-> st.endo, deco |-> st.deco, lagged |-> st.lagged, exo |-> st.exo, ics |-> st.ics]
 
-InitSt == [phase |-> "parse", endo |-> << >>, deco |-> << >>, lagged |-> << >>, exo |-> << >>,
+InitSt == [phase |-> "parse", solve |-> "none", endo |-> << >>, deco |-> << >>, lagged |-> << >>, exo |-> << >>,
            all |-> EmptyFn, toks |-> EmptyFn, ics |-> EmptyFn, pos |-> 0, moved |-> 0, orig |-> NoSys]
 
 ----------------------------------------------------------------------------
@@ -275,6 +315,10 @@ MoveOp(st) ==
 LoopExitOp(st) ==
     IF st.moved > 0 THEN [st EXCEPT !.phase = "find", !.pos = 1] ELSE [st EXCEPT !.phase = "done"]
 
+SolveOp(st, ss) == [st EXCEPT !.phase = "solved", !.solve = IF ss THEN "steady" ELSE "plain"]
+
+HasKind(st, kinds) == \E x \in DOMAIN st.orig.endo : st.orig.endo[x].def.kind \in kinds
+
 (* the whole of FindExactMatches / of EquationReduction, used by the trace specification *)
 RECURSIVE FindAllOp(_)
 FindAllOp(st) ==
@@ -317,6 +361,9 @@ FindExactMatches == phase = "find" /\ FindEnabled(St) /\ Set(FindStepOp(St))
 Rebuild          == phase = "find" /\ ~FindEnabled(St) /\ Set(RebuildOp(St))
 MoveDecorative   == phase = "move" /\ Set(MoveOp(St))
 LoopExit         == phase = "loop" /\ Set(LoopExitOp(St))
+(* (the steady-state option is not offered with a quotient: divisors are only known to be non-zero *)
+(*  in the periods of the ordinary solve)                                                          *)
+Solve(ss)        == phase = "done" /\ (ss => ~HasKind(St, {"quo"})) /\ SolveOK(ss, St) /\ Set(SolveOp(St, ss))
 
 NDeclared == Len(endo) + Len(lagged) + Len(exo)
 
@@ -330,8 +377,9 @@ Next == \/ /\ phase = "parse"
         \/ Rebuild
         \/ MoveDecorative
         \/ LoopExit
+        \/ \E ss \in BOOLEAN : Solve(ss)
 
-Init == /\ phase = InitSt.phase /\ endo = InitSt.endo /\ deco = InitSt.deco /\ lagged = InitSt.lagged
+Init == /\ phase = InitSt.phase /\ solve = InitSt.solve /\ endo = InitSt.endo /\ deco = InitSt.deco /\ lagged = InitSt.lagged
         /\ exo = InitSt.exo /\ all = InitSt.all /\ toks = InitSt.toks /\ ics = InitSt.ics
         /\ pos = InitSt.pos /\ moved = InitSt.moved /\ orig = InitSt.orig
 
@@ -341,12 +389,16 @@ Spec == Init /\ [][Next]_vars
 (* C03 *)
 Reducing == phase \in {"find", "move", "loop", "done"}
 
-SameSolution(st) ==
-    LET so == SolUpTo(st.orig, MaxK)
-        sr == SolUpTo(SysOf(st), MaxK)
-    IN \A k \in 0..MaxK : \A x \in SysVars(st.orig) :
-          /\ x \in DOMAIN sr[k + 1]
-          /\ sr[k + 1][x] = so[k + 1][x]
+SameSolutionUnder(st, ss) ==
+    LET so == SolOpt(st.orig, ss, MaxK)
+        sr == SolOpt(SysOf(st), ss, MaxK)
+    IN /\ Len(so) = Len(sr)                        \* both raise or both return
+       /\ \A i \in 1..Len(so) : \A x \in SysVars(st.orig) :
+             /\ x \in DOMAIN sr[i]
+             /\ sr[i][x] = so[i][x]
+
+(* under every solver option *)
+SameSolution(st) == \A ss \in BOOLEAN : SameSolutionUnder(st, ss)
 
 Partition(st) ==
     LET e == SeqVars(st.endo)  d == SeqVars(st.deco)  l == SeqVars(st.lagged)  g == SeqVars(st.exo)
@@ -357,8 +409,12 @@ Partition(st) ==
 (* Stated on every list the solver could be handed: after Rebuild ("move"), after MoveDecorative  *)
 (* ("loop", and "done" which has the same lists).  During "find" the lists are those of the      *)
 (* preceding state (only `all` / `toks` move), so nothing new is to be checked there.            *)
+(* The ordinary solve is compared on every such list; the steady-state option on the lists the    *)
+(* reduction ends with (MoveDecorative moved nothing), which are the ones a solver is handed.      *)
 Settled == phase \in {"move", "loop"}
-C03_SameSolution == Settled => SameSolution(St)
+Final   == phase = "loop" /\ moved = 0
+C03_SameSolution == /\ Settled => SameSolutionUnder(St, FALSE)
+                    /\ Final => SameSolutionUnder(St, TRUE)
 C03_Partition    == Reducing => Partition(St)
 
 (* a well-posed system never makes the reducing parser raise *)
@@ -368,7 +424,9 @@ NoSpuriousLoop == phase # "error"
 OrigSolvable == (phase = "find" /\ pos = 1 /\ deco = << >>) =>
     LET so == SolUpTo(orig, MaxK) IN \A k \in 0..MaxK : \A x \in SysVars(orig) : so[k + 1][x] # Poison
 
-TypeOK == /\ phase \in {"parse", "find", "move", "loop", "done", "error"}
+TypeOK == /\ phase \in {"parse", "find", "move", "loop", "done", "solved", "error"}
+          /\ solve \in {"none", "plain", "steady"}
+          /\ (phase = "solved") = (solve # "none")
           /\ moved \in 0..(Len(Vars) + 1)
           /\ pos \in 0..(Len(Vars) + 2)
 =============================================================================
